@@ -147,6 +147,10 @@ func VerifyAll(x *Exec, bound map[*ssa.Function]*FuncSpec, res *PassResult) {
 		if p, ok := spec.Options["props"]; ok {
 			x.Sink.DefaultProps[x.funcName(fn)] = parseProps(p)
 		}
+		if pr, ok := spec.Options["fresh-result-slice"]; ok {
+			okf, why := FreshResultSlice(fn)
+			x.Sink.Structural(x.funcName(fn), "frame", "result-slice-shares-no-backing-array-with-arguments", parseProps(pr), okf, why)
+		}
 		before := len(x.Sink.Instances)
 		if err := x.VerifyFunction(fn, spec); err != nil {
 			res.Ungenerated[name] = err.Error()
